@@ -312,6 +312,9 @@ func genScenario(r *Rng, pf pipeProfile) PScn {
 				p.Types = append(p.Types, t)
 			}
 		}
+		if r.Chance(30) {
+			p.Extra = append(p.Extra, "zdoc.go") // part of the package-level tags stands in a second file's package comment
+		}
 		if pf.extras {
 			for _, e := range []string{pipeBase + ".old.go", pipeBase + "x.go", pipeBase + ".rec.go", pipeBase + "_test.go", pipeBase + ".recx.go", "notes.txt", pipeBase + ".txt", "extra.go"} {
 				if r.Chance(35) {
@@ -386,7 +389,7 @@ func pipeStream(name string, quick, thorough int, clauses string, pf pipeProfile
 	}
 }
 
-const pipeRuleCommon = "synthetic modules of 1–4 packages (directories and types declared in descending order), defined scalar/struct/generic/interface types, aliases, tags at global / package-doc / declaration level from a menu incl. repeated keys and names that are prefixes of one another, 1–3 recording generators (with/without alias hook, reflect.New or custom New, a call counter and a helper-once flag rendered into the output) with scripted reactions per (generator, package, type); real NewContext/Execute in fresh child processes; "
+const pipeRuleCommon = "synthetic modules of 1–4 packages (directories and types declared in descending order), defined scalar/struct/generic/interface types, aliases, tags at global / package-doc (in a third of the packages spread over the package comments of two files) / declaration level from a menu incl. repeated keys and names that are prefixes of one another, 1–3 recording generators (with/without alias hook, reflect.New or custom New, a call counter and a helper-once flag rendered into the output) with scripted reactions per (generator, package, type); real NewContext/Execute in fresh child processes; "
 
 func init() {
 	register(&Property{ID: "C06", Streams: []*Stream{
